@@ -73,8 +73,8 @@ theorem ctx_noninterference (s : Sub.State) (body : Bytes) :
 
 /-- overflow drops the oldest queued message, never the new one, and the queue never exceeds its capacity -/
 theorem overflow_drops_oldest (c : Sub.Ctx) (body : Bytes) (hm : c.matches body = true) (hc : c.closed = false)
-    (hp : c.parked = []) (hfull : ¬ c.q.length < c.cap) : (c.offer body).1.q = c.q.tail ++ [body] := by
-  simp [Sub.Ctx.offer, hm, hc, hp, hfull]
+    (hp : c.parked = []) (hfull : ¬ c.q.length < c.cap) (hcap : c.cap ≠ 0) : (c.offer body).1.q = c.q.tail ++ [body] := by
+  simp [Sub.Ctx.offer, hm, hc, hp, hfull, hcap]
 
 /-- PUB: a Send reaches every connected subscriber whose sender is idle, with exactly the bytes sent -/
 theorem pub_reaches_all (ps : List OutPipe) (m : Msg) (hidle : ∀ p ∈ ps, p.inflight = none ∧ p.hold = false) :
